@@ -25,6 +25,9 @@ RULE = (
     ">= 2 members existed when a multi-subsystem action or a measurement ran; distinct = hash of (layout, step "
     "kinds and sites)."
 )
+from pw_verif.props._machine import HISTORY_NOTE, SURVIVOR_NOTE  # noqa: E402,F401
+
+RULE += SURVIVOR_NOTE + HISTORY_NOTE
 ASSUMPTIONS = ["reference self-tests passed", "reordering or re-leveling inside an addressed block is allowed by the statement and not flagged",
                "merging the blocks of addressed subsystems is allowed, not required"]
 
